@@ -2,6 +2,9 @@
   C10 — links, bookmarks, notes and comments stay connected.
 -/
 import Proofs.C10_Instr
+import Proofs.C10_InstrRegex
+import Proofs.C10_InstrRegexAgree
+import Proofs.C10_InstrRegexShape
 import Proofs.C10_Fields
 import Proofs.C10_Convert
 import Proofs.C10_GlobalMain
@@ -691,5 +694,262 @@ example : c10_uniqueHyp (c10_outEvents c10_gCfg c10_gDocD) = false ∧
 example : idsOf [cel S!"a" [(S!"id", S!"b")] [.forceWrite], cel S!"a" [(S!"id", S!"b")] [.forceWrite]] = [S!"b", S!"b"] ∧
     idsOf (collapse (stripEmpty [cel S!"a" [(S!"id", S!"b")] [.forceWrite], cel S!"a" [(S!"id", S!"b")] [.forceWrite]]))
       = [S!"b"] := by decide
+
+/-! ### the regexes of `parse_instr_text`, as body_xml.py has them today
+
+  `Generated.instrRegexes` holds the SOURCE TEXT of the regexes that `parse_instr_text`
+  (mammoth/docx/body_xml.py) passes to `re.match`, in the order of the calls; the extractor rewrites
+  the table from the source on every run.  The theorems `C10_generated_*` are closed computations on
+  that table with the regex parser of MammothModel/RegexParse.lean: editing a regex in body_xml.py
+  changes the table and they stop checking.  The remaining theorems say what these three regexes do
+  on EVERY instruction string under the prioritised-backtracking semantics of MammothModel/Regex.lean
+  (`re.match`: anchored at the start, not at the end) — decision, group 1, cost — and that this is
+  what the hand-written recognisers of the model (`matchExternalLink`, `matchInternalLink`,
+  `matchCheckbox`, `parseInstrText`), which all the other theorems of C10 are about, compute. -/
+
+/-- `parse_instr_text` tries exactly three regexes, in this order: external link
+    `\s*HYPERLINK\s+"([^"]*)"`, internal link `\s*HYPERLINK\s+\\l\s+"([^"]*)"`, check box
+    `\s*FORMCHECKBOX\s*`; each parses to the hand-written value the theorems below are about. -/
+theorem C10_generated_instr_regexes :
+    Generated.instrRegexes.map c07_parseRegex =
+      [some c10_rxExternal, some c10_rxInternal, some c10_rxCheckbox] := by decide
+
+/-- there are exactly three -/
+theorem C10_generated_instr_regex_count : Generated.instrRegexes.length = 3 := by decide
+
+/-- the first regex of the source is the external-link regex `c10_rxExternal` (with the regex before
+    the repair of F6, `\s*HYPERLINK "(.*)"`, this is false: see `C10_old_external_regex`) -/
+theorem C10_generated_external_regex :
+    Generated.instrRegexes[0]?.bind c07_parseRegex = some c10_rxExternal := by decide
+
+/-- the second regex of the source is the internal-link regex `c10_rxInternal` -/
+theorem C10_generated_internal_regex :
+    Generated.instrRegexes[1]?.bind c07_parseRegex = some c10_rxInternal := by decide
+
+/-- the third regex of the source is the check-box regex `c10_rxCheckbox` -/
+theorem C10_generated_checkbox_regex :
+    Generated.instrRegexes[2]?.bind c07_parseRegex = some c10_rxCheckbox := by decide
+
+/-- the list the regex-driven `parse_instr_text` (`c10_instrKindRx`) runs -/
+theorem C10_generated_instr_rules :
+    c10_instrRules = some [c10_rxExternal, c10_rxInternal, c10_rxCheckbox] := by decide
+
+/-- WHERE the parentheses are: the source of the external-link regex is `pre ( body ) post` with
+    `pre`, `body`, `post` parsing to exactly the three parts of `c10_groupExternal` (group 1 is
+    `[^"]*`, between the quotes), and the parts put together are `c10_rxExternal`. -/
+theorem C10_generated_external_group :
+    Generated.instrRegexes[0]?.map (fun src => c10_sourceIsGrouped src c10_groupExternal) = some true ∧
+    c10_groupExternal.regex = c10_rxExternal := ⟨by decide, c10_groupExternal_regex⟩
+
+/-- likewise for the internal-link regex and `c10_groupInternal` -/
+theorem C10_generated_internal_group :
+    Generated.instrRegexes[1]?.map (fun src => c10_sourceIsGrouped src c10_groupInternal) = some true ∧
+    c10_groupInternal.regex = c10_rxInternal := ⟨by decide, c10_groupInternal_regex⟩
+
+/-- the text of the external-link regex BEFORE the repair of F6 parses to a different value (a
+    greedy `.*` between the quotes, a single space after the keyword) -/
+theorem C10_old_external_regex :
+    (c07_parseRegex S!"\\s*HYPERLINK \"(.*)\"").isSome = true ∧
+    c07_parseRegex S!"\\s*HYPERLINK \"(.*)\"" ≠ some c10_rxExternal := by decide
+
+/-! #### group 1 in the cost model -/
+
+/-- GROUP 1 IS WELL DEFINED, for every regex `pre ( body ) post` (deterministic or not) and every
+    input: the matcher never looks at what a continuation returns, so the runs that report what was
+    left at `(`, at `)` and at the end of the match all follow the same path to the same first match:
+    their cost is the same, and either all of them fail or there are `s1`, `s2`, `s3`, each a suffix
+    of the one before and of the input, that every report is a function of. -/
+theorem C10_group1_one_first_match (g : C10Grouped) (s : Str) :
+    (∀ out out', (g.runWith s out).1 = (g.runWith s out').1) ∧
+    ((∀ out, (g.runWith s out).2 = none) ∨
+      ∃ s1 s2 s3 : Str, s1 <:+ s ∧ s2 <:+ s1 ∧ s3 <:+ s2 ∧
+        ∀ out, (g.runWith s out).2 = some (out s1 s2 s3)) :=
+  c10_runWith_uniform g s
+
+/-- `exec` of the regex without the parentheses is the run that reports the end of the match, and
+    group 1 lies inside the match: either there is no match and no group, or the input is
+    `p ++ u ++ q ++ rest`, the match is `p ++ u ++ q` and group 1 is `u`. -/
+theorem C10_group1_within_match (g : C10Grouped) (s : Str) :
+    g.regex.exec s = (g.runWith s fun _ _ s3 => s3) ∧
+    ((g.regex.matchLen s = none ∧ g.group1 s = none) ∨
+     ∃ p u q rest : Str, s = p ++ (u ++ (q ++ rest)) ∧ (g.regex.exec s).2 = some rest ∧
+       g.regex.matchLen s = some (p.length + u.length + q.length) ∧ g.group1 s = some u) :=
+  ⟨c10_grouped_exec g s, c10_group1_spec g s⟩
+
+/-! #### agreement with the hand-written recognisers, for every instruction string -/
+
+/-- EXTERNAL LINK, every string `s`: the model's `matchExternalLink s` returns `some u` exactly when
+    the regex `\s*HYPERLINK\s+"([^"]*)"` of the source matches at the start of `s` and `u` is its
+    group 1; it returns `none` exactly when the regex does not match. -/
+theorem C10_regex_external_agrees (s : Str) :
+    (∀ u, matchExternalLink s = some u ↔
+      ((c10_rxExternal.matchLen s).isSome = true ∧ c10_groupExternal.group1 s = some u)) ∧
+    (matchExternalLink s = none ↔ c10_rxExternal.matchLen s = none) ∧
+    matchExternalLink s = c10_groupExternal.group1 s := by
+  have hm := c10_external_matches s
+  have hg := c10_external_group1 s
+  have e : (c10_rxExternal.matchLen s).isSome = (matchExternalLink s).isSome := by
+    rw [← hm]; unfold C07Regex.matchLen; simp
+  refine ⟨fun u => ?_, ?_, hg.symm⟩
+  · rw [e, hg]
+    constructor
+    · intro h; exact ⟨by rw [h]; rfl, h⟩
+    · exact fun h => h.2
+  · cases h : matchExternalLink s <;> cases h' : c10_rxExternal.matchLen s <;> simp_all
+
+/-- INTERNAL LINK, every string `s`: `matchInternalLink s = some u` exactly when the regex
+    `\s*HYPERLINK\s+\\l\s+"([^"]*)"` of the source matches at the start of `s` and `u` is its group 1;
+    `none` exactly when it does not match. -/
+theorem C10_regex_internal_agrees (s : Str) :
+    (∀ u, matchInternalLink s = some u ↔
+      ((c10_rxInternal.matchLen s).isSome = true ∧ c10_groupInternal.group1 s = some u)) ∧
+    (matchInternalLink s = none ↔ c10_rxInternal.matchLen s = none) ∧
+    matchInternalLink s = c10_groupInternal.group1 s := by
+  have hm := c10_internal_matches s
+  have hg := c10_internal_group1 s
+  have e : (c10_rxInternal.matchLen s).isSome = (matchInternalLink s).isSome := by
+    rw [← hm]; unfold C07Regex.matchLen; simp
+  refine ⟨fun u => ?_, ?_, hg.symm⟩
+  · rw [e, hg]
+    constructor
+    · intro h; exact ⟨by rw [h]; rfl, h⟩
+    · exact fun h => h.2
+  · cases h : matchInternalLink s <;> cases h' : c10_rxInternal.matchLen s <;> simp_all
+
+/-- CHECK BOX, every string `s`: `matchCheckbox s` is true exactly when the regex
+    `\s*FORMCHECKBOX\s*` of the source matches at the start of `s`. -/
+theorem C10_regex_checkbox_agrees (s : Str) :
+    matchCheckbox s = (c10_rxCheckbox.matchLen s).isSome := by
+  rw [← c10_checkbox_matches s]; unfold C07Regex.matchLen; simp
+
+/-- THE WHOLE DECISION, every instruction string and every `fldChar` content: the hand-written
+    `parseInstrText` of the model is "the first of the three regexes of the source that matches":
+    the regexes extracted from body_xml.py today parse (`c10_instrRules`), and running them in order
+    (`c10_instrKindRx`: index of the first that matches at the start; the link branches take group 1
+    of their regex) gives a link to group 1 (`href` for the first regex, `anchor` for the second), the
+    check-box reading for the third, and no field when none matches. -/
+theorem C10_parseInstr_is_first_matching_regex (instr : Str) (cs : List XmlNode) :
+    ∃ rules, c10_instrRules = some rules ∧
+      parseInstrText instr cs =
+        match c10_instrKindRx rules instr with
+        | .external href => .hyperlink { href := href }
+        | .internal anchor => .hyperlink { anchor := anchor }
+        | .checkbox => parseInstrText S!"FORMCHECKBOX" cs
+        | .other => .unknown := by
+  refine ⟨_, C10_generated_instr_rules, ?_⟩
+  rw [c10_instrKind_eq]
+  exact c10_parseInstrText_kind instr cs
+
+/-- the third branch spelled out: what `parseInstrText S!"FORMCHECKBOX" cs` (the reading of the
+    check-box state from the `fldChar` content) is. -/
+theorem C10_checkbox_reading (cs : List XmlNode) :
+    parseInstrText S!"FORMCHECKBOX" cs =
+      (let cb := (findChildOrNull S!"w:checkBox" (findChildOrNull S!"w:ffData" cs).2).2
+       match findChild S!"w:checked" cb with
+       | none => .checkbox (readBoolElem S!"w:default" cb)
+       | some (as, _) => .checkbox (readBoolAttr (attr? S!"w:val" as))) := by
+  have h1 : matchExternalLink S!"FORMCHECKBOX" = none := by decide
+  have h2 : matchInternalLink S!"FORMCHECKBOX" = none := by decide
+  have h3 : matchCheckbox S!"FORMCHECKBOX" = true := by decide
+  simp only [parseInstrText, h1, h2, h3, if_true]
+  rfl
+
+/-- the decision, at the level of the three recognisers: first matching regex of
+    `[c10_rxExternal, c10_rxInternal, c10_rxCheckbox]` = external, else internal, else check box -/
+theorem C10_instrKind_is_first_matching_regex (s : Str) :
+    c10_instrKindRx [c10_rxExternal, c10_rxInternal, c10_rxCheckbox] s = c10_instrKind s :=
+  c10_instrKind_eq s
+
+/-! #### which strings, said without a matcher -/
+
+/-- EXTERNAL LINK, both directions, every `s`, `u`, `n`: the regex of the source matches `s` with
+    group 1 = `u` and a match of length `n` exactly when `s` is
+    `ws* HYPERLINK ws+ " u " rest` with `u` free of `"` (`rest` arbitrary: further switches), and then
+    `n` = everything up to and including the closing quote.  The converse of
+    `C10_external_link_parse`, and the statement that nothing after the closing quote is matched. -/
+theorem C10_regex_external_shape (s u : Str) (n : Nat) :
+    (c10_groupExternal.group1 s = some u ∧ c10_rxExternal.matchLen s = some n) ↔
+    ∃ w1 w2 rest, c10_allWs w1 = true ∧ c10_allWs w2 = true ∧ w2 ≠ [] ∧ '"' ∉ u ∧
+      s = w1 ++ S!"HYPERLINK" ++ w2 ++ ['"'] ++ u ++ ['"'] ++ rest ∧
+      n = w1.length + 9 + w2.length + u.length + 2 :=
+  c10_external_shape s u n
+
+/-- INTERNAL LINK likewise: `ws* HYPERLINK ws+ \l ws+ " u " rest`. -/
+theorem C10_regex_internal_shape (s u : Str) (n : Nat) :
+    (c10_groupInternal.group1 s = some u ∧ c10_rxInternal.matchLen s = some n) ↔
+    ∃ w1 w2 w3 rest, c10_allWs w1 = true ∧ c10_allWs w2 = true ∧ w2 ≠ [] ∧ c10_allWs w3 = true ∧
+      w3 ≠ [] ∧ '"' ∉ u ∧
+      s = w1 ++ S!"HYPERLINK" ++ w2 ++ S!"\\l" ++ w3 ++ ['"'] ++ u ++ ['"'] ++ rest ∧
+      n = w1.length + 9 + w2.length + 2 + w3.length + u.length + 2 :=
+  c10_internal_shape s u n
+
+/-! #### cost -/
+
+/-- LINEAR COST, every input: in the step-counting model of the backtracking matcher (one step per
+    character test, per alternation and per loop iteration, abandoned branches included) each of the
+    three regexes takes at most 3 steps a character plus a constant (28, 34, 28); in particular at
+    most `34 * (length + 1)`.  Every loop (`\s*`, `\s+`, `[^"]*`) is followed by a literal character
+    outside its class, so giving characters back never helps: no catastrophic backtracking on field
+    instructions, which come from untrusted documents. -/
+theorem C10_instr_regex_linear (s : Str) :
+    (c10_rxExternal.steps s ≤ 3 * s.length + 28 ∧ c10_rxInternal.steps s ≤ 3 * s.length + 34 ∧
+      c10_rxCheckbox.steps s ≤ 3 * s.length + 28) ∧
+    (c10_rxExternal.steps s ≤ 34 * (s.length + 1) ∧ c10_rxInternal.steps s ≤ 34 * (s.length + 1) ∧
+      c10_rxCheckbox.steps s ≤ 34 * (s.length + 1)) := by
+  have h1 := c10_external_steps s
+  have h2 := c10_internal_steps s
+  have h3 := c10_checkbox_steps s
+  refine ⟨⟨h1, h2, h3⟩, ?_, ?_, ?_⟩ <;> omega
+
+/-- hence all the attempts of one call of `parse_instr_text` together: at most `9 * length + 90` -/
+theorem C10_parse_instr_text_cost (s : Str) :
+    c10_rxExternal.steps s + c10_rxInternal.steps s + c10_rxCheckbox.steps s ≤ 9 * s.length + 90 := by
+  have h1 := c10_external_steps s
+  have h2 := c10_internal_steps s
+  have h3 := c10_checkbox_steps s
+  omega
+
+/-! #### examples (non-vacuity) -/
+
+/-- an external link with switches after the URL: matched up to the closing quote of the URL (33
+    characters of 43), group 1 is the URL, 60 steps -/
+example : c10_rxExternal.exec S!" HYPERLINK \"http://example.com/a\" \\o \"tip\" " =
+    (60, some S!" \\o \"tip\" ") := by decide
+example : c10_rxExternal.matchLen S!" HYPERLINK \"http://example.com/a\" \\o \"tip\" " = some 33 := by decide
+example : c10_groupExternal.group1 S!" HYPERLINK \"http://example.com/a\" \\o \"tip\" " =
+    some S!"http://example.com/a" := by decide
+example : c10_instrKindRx [c10_rxExternal, c10_rxInternal, c10_rxCheckbox]
+    S!" HYPERLINK \"http://example.com/a\" \\o \"tip\" " = .external (some S!"http://example.com/a") := by
+  decide
+/-- an internal link: the first regex fails (after `HYPERLINK\s+` comes `\`), the second matches -/
+example : (c10_rxExternal.exec S!" HYPERLINK \\l \"_Toc1\" \\h").2 = none ∧
+    c10_groupInternal.group1 S!" HYPERLINK \\l \"_Toc1\" \\h" = some S!"_Toc1" ∧
+    c10_rxInternal.matchLen S!" HYPERLINK \\l \"_Toc1\" \\h" = some 21 := by decide
+example : c10_instrKindRx [c10_rxExternal, c10_rxInternal, c10_rxCheckbox]
+    S!" HYPERLINK \\l \"_Toc1\" \\h" = .internal (some S!"_Toc1") := by decide
+/-- a check box (anything may follow: `re.match` is not anchored at the end) -/
+example : c10_instrKindRx [c10_rxExternal, c10_rxInternal, c10_rxCheckbox] S!" FORMCHECKBOX " = .checkbox ∧
+    c10_instrKindRx [c10_rxExternal, c10_rxInternal, c10_rxCheckbox] S!"FORMCHECKBOXES" = .checkbox := by
+  decide
+/-- instructions that match none of the three: another field, a URL without a closing quote, a
+    keyword in lower case, no space before the quote -/
+example : c10_instrKindRx [c10_rxExternal, c10_rxInternal, c10_rxCheckbox] S!" PAGEREF _Toc1 \\h " = .other ∧
+    c10_instrKindRx [c10_rxExternal, c10_rxInternal, c10_rxCheckbox] S!"HYPERLINK \"http://x" = .other ∧
+    c10_instrKindRx [c10_rxExternal, c10_rxInternal, c10_rxCheckbox] S!"hyperlink \"http://x\"" = .other ∧
+    c10_instrKindRx [c10_rxExternal, c10_rxInternal, c10_rxCheckbox] S!"HYPERLINK\"http://x\"" = .other := by
+  decide
+/-- white space is Python's `\s` (`str.isspace`), e.g. a line feed, a tab, a no-break space; and
+    `[^"]` matches a line feed -/
+example : c10_groupExternal.group1 S!" HYPERLINK\n\t\"a b\"" = some S!"a b" := by decide
+example : c10_groupExternal.group1 S!" HYPERLINK\u00a0\"a\nb\"" = some S!"a\nb" ∧
+    c10_rxExternal.matchLen S!" HYPERLINK\u00a0\"a\nb\"" = some 16 := by decide
+/-- a failing attempt that scans to the end (no closing quote): still 3 steps a character -/
+example : c10_rxExternal.exec S!"HYPERLINK \"aaaaaaaaaaaaaaaaaaaa" = (78, none) := by decide
+/-- the hypotheses of the shape theorems are satisfiable, and the general group is not tied to
+    deterministic regexes: with the regex BEFORE the repair of F6, `\s*HYPERLINK "(.*)"`, the greedy
+    `.*` runs to the end and backtracks to the LAST quote, so group 1 swallows the switches -/
+example : (⟨[.star (.chr c07_ccSpace), c10_word S!"HYPERLINK " (.chr (.lit '"'))], .star (.chr .any),
+      [.chr (.lit '"')]⟩ : C10Grouped).group1 S!" HYPERLINK \"http://example.com/a\" \\o \"tip\" " =
+    some S!"http://example.com/a\" \\o \"tip" := by decide
 
 end Mammoth
